@@ -37,6 +37,11 @@ def units(tier, seed):
     for k2, eng in enumerate([e for e in shapes_h1() + shapes_h2() if not any(v.startswith("CMA") or v == "LOC" for v in e)][::3]):
         descs.append(dict(engines=list(eng), gens=1 + k2 % 2, maximize=bool(k2 % 2), obj=("nanhalf", "nanhole")[k2 % 2], Mh=3, seed=s, sprout={"kind": ("simple", "nbc")[k2 % 2], "L": 2},
                           hib=bool(k2 % 3 == 0), pop=(6, 10)[k2 % 2]))
+    # many leaves (R5S selection only selects when there are more than five)
+    for k3, eng in enumerate([("SEA", "DE"), ("DE", "CMAf"), ("LHS", "SEAX"), ("GA", "SHADE")]):
+        for mx in (False, True):
+            descs.append(dict(engines=list(eng), gens=1, maximize=mx, obj=("twofunnel", "sphere_in")[k3 % 2], Mh=6, seed=s + k3, sprout={"kind": "simple", "L": 3, "far": 0.02},
+                              lsc=[None, {"kind": "metaepoch", "m": 1}], look_mid_step=bool(k3 % 2)))
     us = [{"kind": "run", "descs": c} for c in chunks(descs, 12)]
     for mode, desc in lifecycle_descs(tier, seed, objs=("plateau", "twofunnel"), maximize=(False, True)):
         if mode == "bounded":
